@@ -50,18 +50,11 @@ var otherNs = common.NewTestNamespaceFromSeed([]byte("verif c13 some other names
 //
 //   - A tree that starts at the empty root takes its "old root" version from the commit, so a
 //     version gap / backwards version is not a refusal reason for it.
-//   - pathbadger (finding reported to the lead, recorded as coverage.observation_pathbadger_tree_
-//     reuse_after_failed_commit): a commit that fails AFTER the tree has been walked (wrong
-//     namespace, already finalized, known-root mismatch, failing batch) leaves database pointers of
-//     the failed batch on the dirty nodes, and the next successful commit of the same tree stores a
-//     corrupt root (unreadable root, panics, wrong write log) on the unchanged tree. Only refusals
-//     that pathbadger's NewBatch makes before the tree is walked are therefore used there.
+//   - (Until fix "pathbadger kept database locations of a failed commit" a commit that failed
+//     after the tree had been walked corrupted the next successful commit of the same tree on
+//     pathbadger; both backends now get every refusal kind.)
 func allowedRefusals(backend string, startEmpty bool) []string {
 	switch {
-	case backend == "pathbadger" && startEmpty:
-		return nil
-	case backend == "pathbadger":
-		return []string{"version-gap", "version-backwards", "already-finalized-version"}
 	case startEmpty:
 		return []string{"wrong-namespace", "injected-batch-failure", "known-root-mismatch", "already-finalized-version"}
 	default:
